@@ -187,10 +187,38 @@ def _det(p):
     return p.SerializeToString(deterministic=True)
 
 
+def _strip_defaults(msg):
+    """Clear scalar fields that are present but hold their default value (proto2 presence is not meaning), except oneof members."""
+    for fd, val in msg.ListFields():
+        if fd.type == fd.TYPE_MESSAGE:
+            if fd.is_repeated:
+                for x in val:
+                    _strip_defaults(x)
+            else:
+                _strip_defaults(val)
+        elif not fd.is_repeated and fd.containing_oneof is None and val == fd.default_value:
+            msg.ClearField(fd.name)
+
+
 def _canon(p):
-    """Serialisation with the unordered collections (initializers, value_info) of every graph sorted by name."""
+    """Canonical serialisation: default-valued scalar fields dropped, and the unordered collections (initializers,
+    value_info) of every graph sorted by name."""
     q = copy.deepcopy(p)
+    _strip_defaults(q)
     for g in _walk_graphs(q.graph):
+        # a value_info entry that merely restates the type/shape of an initializer of the same graph carries no information
+        inits = {t.name: (t.data_type, list(t.dims)) for t in g.initializer}
+        keep = []
+        for vi in g.value_info:
+            tt = vi.type.tensor_type
+            dims = [d.dim_value if d.HasField("dim_value") else None for d in tt.shape.dim] if tt.HasField("shape") else None
+            if vi.name in inits and inits[vi.name] == (tt.elem_type, dims):
+                continue
+            keep.append(vi)
+        if len(keep) != len(g.value_info):
+            keep = [copy.deepcopy(x) for x in keep]
+            del g.value_info[:]
+            g.value_info.extend(keep)
         for fld in ("initializer", "value_info"):
             items = sorted(getattr(g, fld), key=lambda x: x.name)
             del getattr(g, fld)[:]
@@ -277,7 +305,13 @@ def _adapter_summary(log):
 
 def _culprits(adapters, crossed):
     """Key fragment: the crossed adapter ops that did NOT produce a replacement if there are any, else all crossed ones."""
-    st = {op: adapters.get(op, "not_invoked") for op in crossed}
+    prio = ["raised", "none", "not_invoked", "replaced"]
+
+    def worst(x):
+        parts = x.split("+")
+        return min(parts, key=lambda q: prio.index(q) if q in prio else 0)
+
+    st = {op: worst(adapters.get(op, "not_invoked")) for op in crossed}
     bad = {op: x for op, x in st.items() if x != "replaced"}
     use = bad or st
     return ",".join(f"{k}:{v}" for k, v in sorted(use.items())) or "-"
@@ -314,18 +348,21 @@ def _convert(proto0, t, entry, fb):
     return {"after": p, "exc": exc, "before": before, "model": None, "log": list(LOG)}
 
 
-def _node_versions(model, declared):
-    """ir entry: (n checked, [descriptions of nodes whose explicit version != declared])."""
+def _node_versions(model, declared, require_set):
+    """ir entry: (n checked, nodes whose explicit version != declared, nodes without a version when one is required)."""
     from onnxscript import ir
 
-    bad, n = [], 0
+    bad, unset, n = [], [], 0
 
     def graph(g, where):
         nonlocal n
         for node in g:
             if node.domain in ("", "ai.onnx"):
                 n += 1
-                if node.version is not None and node.version != declared:
+                if node.version is None:
+                    if require_set:
+                        unset.append(f"{where}:{node.op_type}")
+                elif node.version != declared:
                     bad.append(f"{where}:{node.op_type}(version={node.version})")
             for a in node.attributes.values():
                 if a.is_ref():
@@ -339,7 +376,7 @@ def _node_versions(model, declared):
     graph(model.graph, "graph")
     for f in model.functions.values():
         graph(f, f"function {f.name}")
-    return n, bad
+    return n, bad, unset
 
 
 def judge(ctx, t, entry, fb, res):
@@ -389,8 +426,8 @@ def judge(ctx, t, entry, fb, res):
         b = onnx.ModelProto()
         b.ParseFromString(res["before"])
         if _canon(after) == _canon(b):
-            unchanged = True      # only the order of initializers / value_info entries differs: an unordered collection
-            hit("unchanged_modulo_initializer_order")
+            unchanged = True      # only field presence / order of initializers or value_info entries differs
+            hit("unchanged_modulo_serialisation")
     declared = _default_versions(after.opset_import)
     dset = set(declared)
 
@@ -419,12 +456,12 @@ def judge(ctx, t, entry, fb, res):
     d = declared[0]
     repaired = after
     if d != t and exc is None:
-        if unchanged:
+        pass_modified = any(e == ("pass_result", True) for e in log)
+        if unchanged and not (entry == "proto" and pass_modified):
             hit("not_converted_unchanged")
             info["outcome"] = "not_converted"
             return viol, ev, info
         what_changed = _classify_change(ctx, after, s)
-        pass_modified = any(e == ("pass_result", True) for e in log)
         if entry == "proto" and path in ("native", "capi") and pass_modified:
             # the known mechanism: graph copied back, opset_import left alone
             v("entry=proto;kind=opset_import_not_updated",
@@ -457,12 +494,19 @@ def judge(ctx, t, entry, fb, res):
         if fv and fv != {d}:
             v(f"entry={entry};kind=function_opset_inconsistent", f"function {f.name} declares default opset {sorted(fv)} in a model declaring {d}")
     if res.get("model") is not None and exc is None:
-        n, bad = _node_versions(res["model"], d if repaired is after else t)
+        # the native converter stamps every node it converts (visit_node); nodes of a model that came back from the C API or that
+        # was not converted carry no version (= the model's opset), which is consistent
+        n, bad, unset = _node_versions(res["model"], d, require_set=(path == "native" and t != s and d == t))
         hit("node_versions_checked", n)
         if bad:
             ops = sorted({b.split(":")[1].split("(")[0] for b in bad})
             v(f"entry=ir;kind=node_version_inconsistent;dir={direction};path={path};ops={'+'.join(ops)[:60]}",
               f"{len(bad)} node(s) carry a version different from the declared opset {d}: {bad[:4]}")
+        if unset:
+            ops = sorted({b.split(":")[1] for b in unset})
+            crossed_ops = [o for o in ops if o in ADAPTER_OPS]
+            v(f"entry=ir;kind=node_version_not_set;dir={direction};path={path};ops={'+'.join(crossed_ops) or 'any'}",
+              f"{len(unset)} converted node(s) carry no version after a native conversion to {d}: {unset[:4]}")
 
     # ---------------- validity
     ops_after = _ops_in(repaired)
